@@ -12,6 +12,7 @@ import (
 	"os"
 	"path/filepath"
 	"sort"
+	"strconv"
 	"strings"
 	"sync"
 
@@ -37,6 +38,7 @@ import (
 	"github.com/rs/zerolog"
 	e2types "github.com/wealdtech/go-eth2-types/v2"
 	keystorev4 "github.com/wealdtech/go-eth2-wallet-encryptor-keystorev4"
+	distributed "github.com/wealdtech/go-eth2-wallet-distributed"
 	nd "github.com/wealdtech/go-eth2-wallet-nd/v2"
 	scratch "github.com/wealdtech/go-eth2-wallet-store-scratch"
 	e2wtypes "github.com/wealdtech/go-eth2-wallet-types/v2"
@@ -63,6 +65,10 @@ type acctCfg struct {
 	wallet, name string
 	pubkey       []byte
 	unlockable   bool
+	pass2        bool // encrypted with the unlocker's SECOND account passphrase
+	// dist: "" = ordinary account; otherwise the account is a DISTRIBUTED account (its wallet a distributed wallet) imported
+	// with these participants, "id=endpoint;id=endpoint" — endpoints as found in imported accounts: any text
+	dist string
 }
 
 // world is one dirk instance assembled from the real services, the way testing/daemon does it.
@@ -143,7 +149,11 @@ func newWorld(dir string) *world {
 func (w *world) config(f []string) bool {
 	switch f[0] {
 	case "acct":
-		w.accts = append(w.accts, acctCfg{wallet: unhexStr(f[1]), name: unhexStr(f[2]), pubkey: unhex(f[3]), unlockable: f[4] == "1"})
+		a := acctCfg{wallet: unhexStr(f[1]), name: unhexStr(f[2]), pubkey: unhex(f[3]), unlockable: f[4] == "1" || f[4] == "2", pass2: f[4] == "2"}
+		if strings.HasPrefix(f[4], "d") {
+			a.unlockable, a.dist = true, unhexStr(f[4][1:])
+		}
+		w.accts = append(w.accts, a)
 	case "wallet":
 		w.wallets = append(w.wallets, unhexStr(f[1]))
 		w.noCache = true
@@ -191,7 +201,7 @@ var walletCaches = map[string]*walletCache{}
 func (w *world) acctKey() string {
 	var sb strings.Builder
 	for _, a := range w.accts {
-		fmt.Fprintf(&sb, "%s|%s|%x|%v;", a.wallet, a.name, a.pubkey, a.unlockable)
+		fmt.Fprintf(&sb, "%s|%s|%x|%v|%v|%s;", a.wallet, a.name, a.pubkey, a.unlockable, a.pass2, a.dist)
 	}
 	return sb.String()
 }
@@ -206,14 +216,16 @@ func (w *world) buildWallets(ctx context.Context) {
 	// the keystore's key derivation costs ~50 ms per account: keep the serialised wallets of a configuration on disk
 	// (DH_WALLET_CACHE) and load them back into a fresh in-memory store in later processes
 	cacheFile := ""
-	if dir := os.Getenv("DH_WALLET_CACHE"); dir != "" && !w.noCache {
+	if dir := os.Getenv("DH_WALLET_CACHE"); dir != "" {
 		h := sha256.Sum256([]byte(w.acctKey() + "|" + strings.Join(w.wallets, ",")))
 		cacheFile = filepath.Join(dir, hex.EncodeToString(h[:16])+".json")
 		if restoreStore(cacheFile, w.store) {
 			var err error
 			w.fetcher, err = memfetcher.New(ctx, memfetcher.WithStores([]e2wtypes.Store{w.store}), memfetcher.WithEncryptor(enc))
 			if err == nil {
-				walletCaches[w.acctKey()] = &walletCache{store: w.store, fetcher: w.fetcher}
+				if !w.noCache {
+					walletCaches[w.acctKey()] = &walletCache{store: w.store, fetcher: w.fetcher}
+				}
 				return
 			}
 			w.store = scratch.New()
@@ -231,7 +243,11 @@ func (w *world) buildWallets(ctx context.Context) {
 		wal, ok := wallets[a.wallet]
 		if !ok {
 			var err error
-			wal, err = nd.CreateWallet(ctx, a.wallet, w.store, enc)
+			if a.dist != "" {
+				wal, err = distributed.CreateWallet(ctx, a.wallet, w.store, enc)
+			} else {
+				wal, err = nd.CreateWallet(ctx, a.wallet, w.store, enc)
+			}
 			if err != nil {
 				panic(err)
 			}
@@ -247,8 +263,25 @@ func (w *world) buildWallets(ctx context.Context) {
 		pass := []byte("pass")
 		if !a.unlockable {
 			pass = []byte("unknown-passphrase")
+		} else if a.pass2 {
+			pass = []byte("pass2")
 		}
-		if _, err := wal.(e2wtypes.WalletAccountImporter).ImportAccount(ctx, a.name, sk, pass); err != nil {
+		if a.dist != "" {
+			parts := map[uint64]string{}
+			for _, kv := range strings.Split(a.dist, ";") {
+				i := strings.Index(kv, "=")
+				id, _ := strconv.ParseUint(kv[:i], 10, 64)
+				parts[id] = kv[i+1:]
+			}
+			th := len(parts)/2 + 1
+			var vvec [][]byte
+			for i := 0; i < th; i++ {
+				vvec = append(vvec, a.pubkey)
+			}
+			if _, err := wal.(e2wtypes.WalletDistributedAccountImporter).ImportDistributedAccount(ctx, a.name, sk, uint32(th), vvec, parts, pass); err != nil {
+				panic(err)
+			}
+		} else if _, err := wal.(e2wtypes.WalletAccountImporter).ImportAccount(ctx, a.name, sk, pass); err != nil {
 			panic(err)
 		}
 		if err := wal.(e2wtypes.WalletLocker).Lock(ctx); err != nil {
@@ -291,7 +324,7 @@ func (w *world) begin() string {
 	var err error
 	w.unlocker, err = localunlocker.New(ctx,
 		localunlocker.WithWalletPassphrases([]string{"pass"}),
-		localunlocker.WithAccountPassphrases([]string{"pass"}))
+		localunlocker.WithAccountPassphrases([]string{"pass", "pass2"}))
 	if err != nil {
 		panic(err)
 	}
@@ -308,6 +341,7 @@ func (w *world) begin() string {
 // openRules (re)opens the rules service on the same directory and rebuilds the services above it.
 func (w *world) openRules() {
 	var err error
+	theWorld = w
 	w.ctx, w.cancel = context.WithCancel(context.Background())
 	w.rules, err = standardrules.New(w.ctx,
 		standardrules.WithStoragePath(filepath.Join(w.dir, "storage")),
